@@ -88,6 +88,14 @@ def armOkW (label : Name) (o : Out) : Bool :=
 
 def afterOkW (o : Out) : Bool := isRet o.fin && keepT allCore o.trace == shutdownOrder
 
+/-- K09g / K09h: an entry point that gives up has written the startup logs out — through `abortStartup` (which flushes
+    first: `ObsShape.abortOrder`) or by calling `flushStartupLogs` itself -/
+def entryFlushes (o : Out) : Bool :=
+  match o.fin with
+  | .tail _ => true
+  | .ret _ => (names o).contains (nm "abortStartup") || (names o).contains (nm "flushStartupLogs")
+  | _ => false
+
 /-- what the assembled program needs of its slices -/
 def checkWhole (k : Skels) : Bool :=
   let l := afterLabel k.after
